@@ -130,10 +130,17 @@ from . import vocab
 
 from . import inventory
 
+
+def _c04_o5(W, ob):
+    from . import c04 as _m
+    return _m.o5(W, ob)
+
+
 OBLIGATIONS = [
     ('C17.O1', 'every hash iteration is classified', 'each of the >= 30 iteration sites over a HashMap/HashSet is a commutative reduction, a pure retain, a loop without '
      'shared writes, collected-and-sorted, or matches a reviewed entry with exactly the computed effect signature; callers of map-ordered results are reviewed.', o1),
     ('C17.O2', 'canonical orders', 'InputBytes::from_inputs iterates 0..num_players with lookups; UdpProtocol::new sorts the handles it stores; outgoing_local_inputs is a BTreeMap.', o2),
+    ('C17.O4', 'per-session configuration fix-ups are unconditional (= C04.O5)', 'what a session does with its configuration depends on that configuration only -- not on what another session in the same process did before (a `static Once` around the fix-up): sparse saving is switched off in lockstep on every construction; see C04.O5', _c04_o5),
     ('C17.O3', 'order-independent merge of pending disconnects (= C07.O3)', 'see C07.O3', c07.o3),
     ('C17.R', 'who may remove', 'every call that takes elements out of a collection this property\'s rules rely on (keyed removal from a map, or bulk / positional removal) is one of the reviewed sites in tables/removals.json; a lookup turned into a removal, a second prune, a clear on another path is reported; see rules/removals.py', removals.rule_for('C17')),
     ('C17.V', 'no unreviewed condition in the pinned helpers', 'for each helper whose body this property\'s rules pin (tables/condition_terms.json), the terms its path conditions are built from (fields, parameters, call results -- no constants, operators or local names) are a subset of the reviewed vocabulary: one more `if` in front of a pinned result (a lock that may time out, "only while an endpoint is running") is reported; see rules/vocab.py', vocab.rule_for('C17')),
@@ -141,4 +148,5 @@ OBLIGATIONS = [
     ('C17.K', 'call inventory', 'every reviewed call of a function that writes state (tables/call_edges.json, callers in the structs this property\'s rules read) is still made, directly or through helpers: a call deleted as redundant is reported; see rules/inventory.py', inventory.call_rule_for('C17')),
     ('C17.A', 'expression inventory', 'every arithmetic expression handed to a call or stored in a field, and what every closure given to an iterator adaptor / collection method returns, is one of the reviewed expressions of its function (tables/expressions.json; linear / guard normal forms, no local names): a changed literal, operator, operand order, factor, predicate or sort key is reported; see rules/inventory.py', inventory.expr_rule_for('C17')),
     ('C17.P', 'trait-impl inventory', 'each (type, trait) pair among PartialEq / Eq / Hash / Ord / Clone / Default / From / Deref / InputPredictor is derived or hand-written as listed in tables/impls.json: a derive replaced by a hand-written impl (equality by address only, a hash that ignores a field) changes which map keys collide and which inputs match with every call site unchanged; see rules/inventory.py', inventory.impl_rule),
+    ('C17.Z', 'constants and type shapes', 'every named constant keeps its reviewed value and every type its reviewed shape -- variants and fields in order, with their types (tables/shapes.json): a ring size, sentinel, default or wire constant changed by value, a frame or checksum stored in a narrower type, a variant or field added, removed or reordered is reported; see rules/inventory.py', inventory.shape_rule),
 ]
